@@ -32,6 +32,10 @@ Definition kidx_complete (sch : schema) (st : tstate) : Prop :=
 Definition inv (sch : schema) (st : tstate) : Prop :=
   ids_sorted st /\ ids_below st /\ 0 <= rcount st /\ (int_pk sch = true -> kidx_complete sch st).
 
+(* no key without row-id suffix in the secondary index (INSERT never writes one; UPDATE and undo do,
+   but only on tables with an integer primary key) *)
+Definition no_bare (st : tstate) : Prop := forall e, In e (sidx st) -> s_suf e <> None.
+
 (* ------------------------------------------------------------------ covered transaction bodies *)
 (* A statement of the body is covered in the state it runs in when it is
      - an INSERT that inserts all its rows or none (a multi-row INSERT failing at a later row keeps
